@@ -28,18 +28,20 @@ pub fn io_runtime() -> tokio::runtime::Runtime {
 }
 
 /// sends datagrams so that at most ~40 KB are in flight (loopback never drops below the socket buffer)
-struct Feeder<'a> { peer: &'a UdpSocket, dgs: &'a [Vec<u8>], next: usize, sent: usize, end_sent: bool, done: usize, done_bytes: usize }
+struct Feeder<'a> { peer: &'a UdpSocket, dgs: &'a [Vec<u8>], next: usize, sent: usize, end_sent: bool, done: usize, done_bytes: usize,
+    /// lock-step: the next datagram (and the closing empty one) is sent only when every packet of the earlier ones has been read
+    lockstep: bool }
 impl<'a> Feeder<'a> {
-    fn new(peer: &'a UdpSocket, dgs: &'a [Vec<u8>]) -> Self { Feeder { peer, dgs, next: 0, sent: 0, end_sent: false, done: 0, done_bytes: 0 } }
+    fn new(peer: &'a UdpSocket, dgs: &'a [Vec<u8>]) -> Self { Feeder { peer, dgs, next: 0, sent: 0, end_sent: false, done: 0, done_bytes: 0, lockstep: false } }
     /// consumed = payload bytes the reader has obtained so far; at most 100 datagrams / 40 KB are left unread
     /// in the socket (a datagram cut by the scratch array counts as read once the reader is past its start + 1020)
     fn top_up(&mut self, consumed: usize) {
         while self.done < self.next && self.done_bytes + self.dgs[self.done].len().min(SCRATCH) <= consumed { self.done_bytes += self.dgs[self.done].len().min(SCRATCH); self.done += 1; }
-        while self.next < self.dgs.len() && self.sent.saturating_sub(consumed) < 40_000 && self.next - self.done < 100 {
+        while self.next < self.dgs.len() && self.sent.saturating_sub(consumed) < (if self.lockstep { 1 } else { 40_000 }) && self.next - self.done < 100 {
             let _ = self.peer.send(&self.dgs[self.next]).unwrap();
             self.sent += self.dgs[self.next].len().min(SCRATCH); self.next += 1;
         }
-        if self.next == self.dgs.len() && !self.end_sent { let _ = self.peer.send(&[]).unwrap(); self.end_sent = true; }
+        if self.next == self.dgs.len() && !self.end_sent && (!self.lockstep || consumed >= self.sent) { let _ = self.peer.send(&[]).unwrap(); self.end_sent = true; }
     }
 }
 
@@ -101,9 +103,9 @@ fn adaptor_expect(dgs: &[Vec<u8>], used: &[usize]) -> String {
 }
 
 /// (b) one session: returns the canonical trace and the datagrams the peer received (keep-alive replies)
-fn session_run(imp: &str, rt: &tokio::runtime::Runtime, fr: &Frames, idx: &RepIndex, verify: bool, dgs: &[Vec<u8>]) -> (Vec<String>, Vec<Vec<u8>>) {
+fn session_run(imp: &str, rt: &tokio::runtime::Runtime, fr: &Frames, idx: &RepIndex, verify: bool, dgs: &[Vec<u8>], lockstep: bool) -> (Vec<String>, Vec<Vec<u8>>) {
     let (a, b) = pair();
-    let mut feeder = Feeder::new(&b, dgs);
+    let mut feeder = Feeder::new(&b, dgs); feeder.lockstep = lockstep;
     let mut trace = vec![]; let mut consumed = 0usize;
     let max_reads = fr.frames.len() + 8;
     let mut next_frame = 0usize;
@@ -162,7 +164,7 @@ fn pack(rng: &mut Rng, frames: &[Vec<u8>], style: u64) -> Vec<Vec<Vec<u8>>> {
     out
 }
 
-struct Case { imp: &'static str, compressed: bool, verify: bool, frames: Vec<Vec<u8>>, groups: Vec<usize> }
+struct Case { imp: &'static str, compressed: bool, verify: bool, frames: Vec<Vec<u8>>, groups: Vec<usize>, lockstep: bool }
 
 /// regenerate a session case from its compact id: "<imp> <C|U> <seed> <nframes> <pack style> <big>"
 fn session_case(imp: &str, compressed: bool, cseed: u64, nframes: usize, style: u64, big: bool) -> Case {
@@ -171,15 +173,16 @@ fn session_case(imp: &str, compressed: bool, cseed: u64, nframes: usize, style: 
     let bigs: Vec<&Vec<u8>> = pool.iter().filter(|f| f.len() >= 200).collect();
     let frames: Vec<Vec<u8>> = (0..nframes).map(|_| if big && !bigs.is_empty() && rng.chance(3, 4) { (*rng.pick(&bigs)).clone() } else { rng.pick(&pool).clone() }).collect();
     let fr = Frames::new(compressed, frames);   // drops anything that is not one complete frame
-    let packed = pack(&mut rng, &fr.frames, style);
-    Case { imp: if imp == "B" { "B" } else { "A" }, compressed, verify: cseed % 2 == 0, frames: fr.frames.clone(), groups: packed.iter().map(|g| g.len()).collect() }
+    // styles 3 / 4 = styles 1 / 2 in lock-step (the peer waits for its packets to be read before it sends more)
+    let packed = pack(&mut rng, &fr.frames, if style >= 3 { style - 2 } else { style });
+    Case { imp: if imp == "B" { "B" } else { "A" }, compressed, verify: cseed % 2 == 0, frames: fr.frames.clone(), groups: packed.iter().map(|g| g.len()).collect(), lockstep: style >= 3 }
 }
 
 fn run_session_case(id: &str, c: &Case, rt: &tokio::runtime::Runtime, st: &mut Stats, out: Option<&mut Out>, rng: &mut Rng) -> bool {
     let fr = Frames::new(c.compressed, c.frames.clone()); let idx = RepIndex::new(&fr);
     let mut dgs: Vec<Vec<u8>> = vec![]; let mut i = 0;
     for g in &c.groups { dgs.push(fr.frames[i..i + g].concat()); i += g; }
-    let (trace, got) = session_run(c.imp, rt, &fr, &idx, c.verify, &dgs);
+    let (trace, got) = session_run(c.imp, rt, &fr, &idx, c.verify, &dgs, c.lockstep);
     st.evaluations += 1;
     let mut ok = true;
     // Disconnected is produced by the empty terminator datagram; keep-alive replies go to the peer socket
@@ -309,6 +312,42 @@ pub fn bounce_case(imp: &str, rt: &tokio::runtime::Runtime, compressed: bool) ->
     None
 }
 
+/// a keep-alive whose reply is the send that meets a pending "port unreachable" error: the peer sends one datagram holding a packet and a
+/// keep-alive, the caller reads the packet, the peer goes away, a caller write bounces, the peer comes back, the caller reads on.  A keep-alive
+/// may be handed to the caller only after its reply has really left (a send the kernel refused is not a reply); no reply is sent twice.
+/// Returns None = holds (or the port could not be re-bound), Some(description) otherwise.
+pub fn bounce_keepalive_case(imp: &str, rt: &tokio::runtime::Runtime, compressed: bool) -> Option<String> {
+    use insim::{identifiers::RequestId, insim::{Tiny, TinyType}};
+    let peer = UdpSocket::bind("127.0.0.1:0").ok()?; let paddr = peer.local_addr().ok()?;
+    let a = UdpSocket::bind("127.0.0.1:0").ok()?; a.connect(paddr).ok()?; let aaddr = a.local_addr().ok()?;
+    a.set_read_timeout(Some(Duration::from_millis(200))).ok()?;
+    let ping = raw_frame(compressed, 3, 1, &[3]); let ka = raw_frame(compressed, 3, 0, &[0]);
+    let mut dg = ping.clone(); dg.extend_from_slice(&ka);
+    peer.send_to(&dg, aaddr).ok()?;
+    enum F { B(BFramed), A(AFramed) }
+    let _g = rt.enter();
+    let mut f = if imp == "B" { F::B(BFramed::new(Box::new(BUdp::from(a)), Codec::new(mode_of(compressed)))) } else { a.set_nonblocking(true).ok()?; F::A(AFramed::new(Box::new(AUdp::from(tokio::net::UdpSocket::from_std(a).ok()?)), Codec::new(mode_of(compressed)))) };
+    // Some(true) = a keep-alive was handed over, Some(false) = another packet / an error / nothing in time
+    let mut read = |f: &mut F| -> Option<bool> { let r = match f { F::B(x) => guard(|| x.read()).map(|r| r.ok()), F::A(x) => guard(|| rt.block_on(async { tokio::time::timeout(Duration::from_millis(300), x.read()).await })).map(|r| r.ok().and_then(|r| r.ok())) }; r.map(|p| matches!(p, Some(Packet::Tiny(Tiny { reqi: RequestId(0), subt: TinyType::None })))) };
+    // 0. the first packet of the datagram is read
+    if read(&mut f) != Some(false) { return Some("the first packet of the datagram is not delivered".into()); }
+    // 1. the peer goes away; a caller write bounces
+    drop(peer);
+    let w = Packet::Tiny(Tiny { reqi: RequestId(2), subt: TinyType::Ping });
+    let _ = match &mut f { F::B(x) => guard(|| x.write(w.clone())).map(|_| ()), F::A(x) => guard(|| rt.block_on(async { tokio::time::timeout(Duration::from_secs(2), x.write(w.clone())).await })).map(|_| ()) };
+    std::thread::sleep(Duration::from_millis(30));
+    // 2. the peer is back on the same port; the caller reads on (the keep-alive is already in the connection's hands)
+    let peer = match UdpSocket::bind(paddr) { Ok(p) => p, Err(_) => return None };
+    peer.set_read_timeout(Some(Duration::from_millis(150))).ok()?;
+    let mut handed = 0; let mut panics = 0;
+    for _ in 0..3 { match read(&mut f) { Some(true) => handed += 1, Some(false) => {}, None => panics += 1 } }
+    let mut rb = [0u8; 2048]; let mut got: Vec<Vec<u8>> = vec![]; while let Ok(n) = peer.recv(&mut rb) { got.push(rb[..n].to_vec()); }
+    let replies = got.iter().filter(|d| **d == ka).count();
+    if panics > 0 { return Some("read() panics after a refused datagram".into()); }
+    if handed > replies || replies > 1 || handed > 1 { return Some(format!("one keep-alive (behind a packet in the same datagram, its reply meeting a pending port-unreachable error): handed to the caller {handed} time(s), the peer (listening again) received {replies} reply datagram(s) {:?}", got.iter().map(|d| hex(d)).collect::<Vec<_>>())); }
+    None
+}
+
 /// a handshake() in the middle of a session (InSim options are changed by sending IS_ISI again): the packets of a multi-packet datagram
 /// that were received but not yet read must still be delivered afterwards, and the ISI leaves as one datagram.
 pub fn handshake_mid_case(imp: &str, rt: &tokio::runtime::Runtime, compressed: bool) -> Option<String> {
@@ -365,13 +404,13 @@ fn write_case(imp: &str, rt: &tokio::runtime::Runtime, compressed: bool, packets
 pub fn keepalive_sessions(prop: &str, a: &Args, st: &mut Stats) {
     let rt = io_runtime();
     let mut rng = Rng::new(a.seed ^ 0x0C07_0D9);
-    for compressed in [true, false] { for imp in ["B", "A"] { for (nframes, style) in [(40usize, 1u64), (160, 1), (160, 2), (if a.thorough() { 1500 } else { 400 }, 1)] {
+    for compressed in [true, false] { for imp in ["B", "A"] { for (nframes, style) in [(40usize, 1u64), (160, 1), (160, 2), (160, 3), (if a.thorough() { 1500 } else { 400 }, 1)] {
         let cseed = rng.next() % 100_000;
         let mut c = session_case(imp, compressed, cseed, nframes, style, true);
         // a keep-alive after every third frame, packed again
         let ka: Vec<u8> = if compressed { vec![1, 3, 0, 0] } else { vec![4, 3, 0, 0] };
         let mut frames = vec![]; for (i, f) in c.frames.iter().enumerate() { frames.push(f.clone()); if i % 3 == 2 { frames.push(ka.clone()); } }
-        let packed = pack(&mut rng, &frames, style);
+        let packed = pack(&mut rng, &frames, if style >= 3 { style - 2 } else { style });
         c.frames = frames; c.groups = packed.iter().map(|g| g.len()).collect();
         let id = format!("udpka {imp} {} {cseed} {nframes} {style}", mode_tag(compressed));
         let before = st.failures.len();
@@ -471,6 +510,8 @@ pub fn run(a: &Args) {
         for imp in ["B", "A"] {
             // the history that exposed the original defect: large datagrams, > 6 KB of traffic
             cases.push((imp.into(), compressed, 11, 60, 1, true));
+            // lock-step peers: nothing further arrives until everything sent so far has been read (a packet held back stalls the session)
+            cases.push((imp.into(), compressed, 12, 120, 3, true)); cases.push((imp.into(), compressed, 13, 200, 4, false));
             let n = if a.thorough() { 150 } else { 14 };
             for i in 0..n {
                 let nframes = match i % 5 { 0 => rng.range(1, 5), 1 => rng.range(5, 40), 2 | 3 => rng.range(40, 250), _ => rng.range(250, 900) } as usize;
